@@ -217,6 +217,13 @@ def gen(tier, rng):
                 else:
                     bits = fc in (1, 2, 5, 15)
                     ops.append({"op": "cset", "fc": fc, "a": a, "vals": [rng.randint(0, 1) if bits else rng.randint(0, 65535) for _ in range(n)]})
+            if rep == 0:
+                # directed: a context-level reset in the middle, then every table probed at both ends of its block with either offset
+                ops = ops[:10] + [{"op": "creset"}]
+                for fc, t in ((1, "c"), (2, "d"), (3, "h"), (4, "i")):
+                    for a in dm.boundary_addrs(cfg, t, rng, 1)[:8]:
+                        ops.append({"op": "cvalidate", "fc": fc, "a": a, "n": 1})
+                        ops.append({"op": "cget", "fc": fc, "a": a, "n": 1})
             traces.append(ctx_trace("c%d" % k, cfg, ops))
             k += 1
     # --- server contexts ---
